@@ -49,7 +49,7 @@ pub fn gen(rng: &mut StdRng, ops: u32) -> Tree {
             6 => Tree::Var("X".to_string()),
             7 => Tree::Var("U".to_string()),
             8 => Tree::Str(["", "A", "B"][rng.gen_range(0..3)].to_string()),
-            _ => Tree::Var("S$".to_string()),
+            _ => Tree::Var(["S$", "U$"][rng.gen_range(0..2)].to_string()),
         };
     }
     match rng.gen_range(0..10) {
